@@ -74,7 +74,7 @@ def run_config(args):
                 if ctx.model is None:
                     ctx._check()
                 if ctx.model is not None:
-                    env = solve._model_env(ctx.model, ctx.pc)
+                    env = dict(ctx.model)
                 tb = traceback.format_exception(type(p.exc), p.exc, p.exc.__traceback__)
                 out["failures"].append({"name": "exception:" + type(p.exc).__name__, "verdict": "sat",
                                         "env": _envjson(env), "detail": "".join(tb)[-1500:],
